@@ -172,7 +172,7 @@ def run_one(ri, rn, kids):
     elem = ri.elem_for(rn)
     name = elem or "zzUnmapped"
     n = Node(name)
-    n._content = ri.valid_content(rn, nkids=len(kids))
+    impl.set_content(n, ri.valid_content(rn, nkids=len(kids)))
     for k, v in ri.valid_attrs(rn):
         n.add_attribute(k, v)
     for kn in kids:
